@@ -1,7 +1,7 @@
 """Case generator: random and exhaustive grammars (s-expressions per FORMAT.md) with inputs.
 
 Every random choice is drawn from one random.Random seeded by the caller (VERIF_SEED)."""
-import random, itertools
+import random, itertools, json
 
 A, B, C, EA, COMMA, EURO = 97, 98, 99, 233, 44, 8364
 ALPHA = [A, B, C, EA]
@@ -48,7 +48,7 @@ def consuming(g):
     if h == "MapErr": return consuming(g[2])
     if h == "Memo": return consuming(g[2])
     if h in ("Rec", "RecDecl", "Boxed"): return consuming(g[1])
-    if h == "NestedIn": return True
+    if h in ("NestedIn", "NestedVia"): return True
     if h == "NestedDelims": return True
     if h == "ExtWrap": return consuming(g[1])
     if h == "WithState": return consuming(g[2])
@@ -96,7 +96,7 @@ sexp_G_HEADS = {"End", "Empty", "Any", "Just", "OneOf", "NoneOf", "Select", "Cus
            "DelimitedBy", "PaddedBy", "Group", "Or", "Choice", "ChoiceVec", "OrNot", "Not", "AndIs", "Rewind",
            "RepUnit", "Collect", "CollectExactly", "Foldl", "Foldr", "FoldlWith", "FoldrWith", "RecoverVia",
            "RecoverSkipUntil", "RecoverSkipRetry", "Labelled", "MapErr", "WithCtx", "IgnoreWithCtx", "ThenWithCtx",
-           "MapCtx", "JustCfg", "Memo", "Rec", "RecDecl", "Var", "Boxed", "Pratt", "Padded", "ExtWrap", "Lazy", "WithState", "GroupArr"}
+           "MapCtx", "JustCfg", "Memo", "Rec", "RecDecl", "Var", "Boxed", "Pratt", "Padded", "ExtWrap", "Lazy", "WithState", "GroupArr", "NestedIn", "NestedVia"}
 
 class Gen:
     def __init__(self, rng, ctors, alpha=None, no_not=False, mw=None, slices=True):
@@ -229,7 +229,7 @@ class Gen:
         if c == "RepUnitCfg":
             # a configured repetition used directly as a unit parser (IterConfigure / TryIterConfigure as Parser<()>)
             lo, hi = self.bounds()
-            return ["RepUnit", ["IRepCfg", GC(), lo, hi, self.r.choice([0, 0, 1, 2, 3, 4, 5, 6, 8])]]
+            return ["RepUnit", ["IRepCfg", GC(), lo, hi, self.r.choice([0, 0, 1, 2, 3, 4, 5, 6, 8, 9, 10])]]
         if c == "IntoIter":
             src = self.r.choice([lambda: ["Collect", "CVec", self.it(max(d - 2, 0), unit=True)], lambda: ["OrNot", G()],
                                  lambda: ["Group", [G() for _ in range(self.r.randint(1, 3))]], G])()
@@ -249,9 +249,11 @@ class Gen:
         atom = self.r.choice([["Just", [A]], ["OneOf", [A, B]], ["Just", [A]], ["To", 1, ["OneOf", [A, B, C]]]])
         n = nops or self.r.choice([1, 2, 2, 3, 3, 4, 5, 6])
         ops = []
+        # binding powers are u16: now and then a table uses the top of the range (power arithmetic must not overflow)
+        big = self.r.choice([0] * 12 + [32764, 32767, 65531])
         for _ in range(n):
             sym = self.r.choice(self.PRATT_SYMS)
-            bp = self.r.randint(1, 4)
+            bp = self.r.randint(1, 4) + big
             kind = self.r.choice(["PInfix", "PInfix", "PInfix", "PPrefix", "PPostfix"])
             og = ["Just", [sym]]
             if kind == "PInfix": ops.append(["PInfix", self.r.randint(0, 1), bp, og, self.k()])
@@ -281,9 +283,19 @@ class Gen:
         op = self.r.choice([43, 45, 42])
         atom = self.r.choice([["Just", [A]], ["OneOf", [A, B]]])
         mid = 900 + self.r.randint(0, 50)
-        if self.r.random() < 0.5:
-            return ["Rec", ["Or", ["Memo", mid, ["Then", ["Var", 0], ["Then", ["Just", [op]], atom]]], atom]]
-        return ["Rec", ["Memo", mid, ["Or", ["Then", ["Var", 0], ["Then", ["Just", [op]], atom]], atom]]]
+        ref = ["Var", 0]
+        # now and then the recursive reference sits under a context switch (same context value): the memo table must be the same
+        # table on both sides of it, or the in-progress marker that cuts the recursion is not found
+        if self.r.random() < 0.25:
+            ref = self.r.choice([["MapCtx", "FId", ref], ["WithCtx", "VUnit", ref], ["IgnoreWithCtx", "Empty", ref]])
+        step = ["Then", ref, ["Then", ["Just", [op]], atom]]
+        k = self.r.random()
+        if k < 0.4:
+            return ["Rec", ["Or", ["Memo", mid, step], atom]]
+        if k < 0.6:
+            # the memoized step and a clone of it (same id) both take part in the recursion
+            return ["Rec", ["Or", ["Memo", mid, step], ["Or", ["Memo", mid, json.loads(json.dumps(step))], atom]]]
+        return ["Rec", ["Memo", mid, ["Or", step, atom]]]
 
     def memo_clones(self):
         """one memoized parser, cloned into several places (clones share the cache key), failing more than once at the same
@@ -385,7 +397,7 @@ class Gen:
             elif cs < 0.78: sep = ["PaddedBy", ["Just", [COMMA]], ["RepUnit", ["IRep", ["Just", [32]], 0, "inf"]]]
             else: sep = self.g(max(d - 1, 0), True)
             base = ["ISep", item, sep, lo, hi, self.r.randint(0, 1), self.r.randint(0, 1)]
-        elif c < 0.93 and "JustCfg" in self.ctors: base = ["IRepCfg", item, lo, hi, self.r.choice([0, 0, 1, 2, 3, 4, 4, 5, 6, 7, 8, 8])]
+        elif c < 0.93 and "JustCfg" in self.ctors: base = ["IRepCfg", item, lo, hi, self.r.choice([0, 0, 1, 2, 3, 4, 4, 5, 6, 7, 8, 8, 9, 9, 10, 10])]
         elif c < 0.965 and not unit: base = ["IOrNot", item]
         elif not unit:
             # i.then(j) used as an iterable: the items of i, then those of (a fresh) j
@@ -489,7 +501,7 @@ def sample(rng, g, alpha, ctx=()):
     if h in ("Rec", "RecDecl"): return sample_rec(rng, g[1], alpha, ctx, [g[1]], rng.randint(0, 4))
     if h == "Var": return []
     if h == "Pratt": return sample_pratt(rng, g, alpha, ctx)
-    if h == "NestedIn": return [("G", tuple(S(g[1])))]      # a group token whose children the inner grammar accepts
+    if h in ("NestedIn", "NestedVia"): return [("G", tuple(S(g[1])))]      # a group token whose children the inner grammar accepts
     return []
 
 def sample_rec(rng, body, alpha, ctx, envs, depth):
